@@ -72,7 +72,12 @@ func replayTemplate(prog *Program, prop string, r *oblResult, name string) (bool
 
 // writeReplay writes the replay file of a failed obligation and, when the model can be
 // turned into inputs of the real function, runs it against the real code.
+var noReplay bool // canary runs: report failures without replaying them or writing replay files
+
 func writeReplay(prog *Program, prop string, r *oblResult) (string, string) {
+	if noReplay {
+		return "-", " no-failing-input-found"
+	}
 	name := strings.NewReplacer("/", "_", ":", "_", "(", "", ")", "", "*", "", "$", "_", "#", "_").Replace(r.O.Name)
 	path := filepath.Join(verifDir, "replays", prop, name+".txt")
 	var sb strings.Builder
